@@ -29,6 +29,8 @@ func (H) Generate(prop string, rng *rand.Rand, tier string) any {
 	switch prop {
 	case "C01":
 		return genC01(rng, tier)
+	case "C05", "C06":
+		return genWork(rng, tier, prop)
 	}
 	panic("modsim: unknown property " + prop)
 }
@@ -38,6 +40,9 @@ func (H) Decode(prop string, raw json.RawMessage) (any, error) {
 	case "C01":
 		p := &C01Plan{}
 		return p, json.Unmarshal(raw, p)
+	case "C05", "C06":
+		p := &WorkPlan{}
+		return p, json.Unmarshal(raw, p)
 	}
 	return nil, fmt.Errorf("modsim: unknown property %s", prop)
 }
@@ -46,6 +51,8 @@ func (H) Execute(prop string, plan any, rc *simkit.RunCtx) {
 	switch prop {
 	case "C01":
 		execC01(plan.(*C01Plan), rc)
+	case "C05", "C06":
+		execWork(prop, plan.(*WorkPlan), rc)
 	}
 }
 
@@ -53,6 +60,8 @@ func (H) Check(prop string, plan any, rc *simkit.RunCtx) {
 	switch prop {
 	case "C01":
 		checkC01(plan.(*C01Plan), rc)
+	case "C05", "C06":
+		checkWork(prop, plan.(*WorkPlan), rc)
 	}
 }
 
@@ -60,6 +69,8 @@ func (H) Shrink(prop string, plan any) []any {
 	switch prop {
 	case "C01":
 		return shrinkC01(plan.(*C01Plan))
+	case "C05", "C06":
+		return shrinkWork(plan.(*WorkPlan))
 	}
 	return nil
 }
@@ -67,6 +78,12 @@ func (H) Shrink(prop string, plan any) []any {
 func (H) Tune(prop string, plan any, cfg *simrt.Config) {
 	if cfg.MaxSteps == 0 {
 		cfg.MaxSteps = 60000
+	}
+	if prop == "C05" || prop == "C06" {
+		cfg.MaxAdvIdx = 2 // promptness is measured in simulated time: only small clock steps while goroutines are runnable
+		if cfg.PAdvance > 0.02 {
+			cfg.PAdvance = 0.02
+		}
 	}
 	if prop == "C01" {
 		cfg.MaxAdvIdx = 3 // lifecycle timeouts are out of scope: no long clock jumps while callbacks are runnable
